@@ -154,7 +154,13 @@ type bodyCtx struct {
 func (g *gen) stmt(c *bodyCtx) string {
 	n := g.id()
 	term := c.Term && g.chance(50)
-	switch g.r.Intn(24) {
+	switch g.r.Intn(25) {
+	case 23:
+		// a local variable named like a package the resolver template reserves as an import, used
+		// with a selector: the regenerated file must not keep that import because of it
+		g.use("body_local_named_like_reserved_import")
+		name := g.pick([]string{"io", "bytes", "strconv", "sync", "errors", "time"})
+		return fmt.Sprintf("{\n\t%[1]s := struct{ In int }{%[2]d}\n\t_ = %[1]s.In\n}", name, n)
 	case 0:
 		g.use("body_string_literal")
 		return fmt.Sprintf("s%d := \"%s\"\n_ = s%d", n, g.strContent(term), n)
